@@ -18,6 +18,7 @@ import (
 	"sort"
 	"strings"
 	"sync"
+	"time"
 
 	"github.com/davecgh/go-spew/spew"
 	"github.com/hashicorp/go-hclog"
@@ -235,6 +236,9 @@ func Request(c M) (structs.MessageType, any, error) {
 			sort.Slice(checks, func(i, j int) bool { return checks[i] < checks[j] })
 			req.Session = structs.Session{ID: UUID(str(c["id"])), Node: str(c["node"]), Name: str(c["name"]),
 				Behavior: structs.SessionBehavior(str(c["beh"])), NodeChecks: nil}
+			if str(c["delay"]) == "yes" {
+				req.Session.LockDelay = structs.MaxLockDelay
+			}
 			for _, ck := range checks {
 				req.Session.NodeChecks = append(req.Session.NodeChecks, string(ck))
 			}
@@ -382,6 +386,7 @@ func ProjectStore(s *state.Store, idx uint64, skipNode string) M {
 	kv := []M{}
 	tombs := []M{}
 	sess := []M{}
+	lds := []string{}
 	schk := []M{}
 	nodes := []M{}
 	svcs := []M{}
@@ -403,6 +408,9 @@ func ProjectStore(s *state.Store, idx uint64, skipNode string) M {
 				cs = append(cs, string(c))
 			}
 			sort.Strings(cs)
+			if x.LockDelay > 0 {
+				lds = append(lds, Name(x.ID))
+			}
 			sess = append(sess, M{"id": Name(x.ID), "node": x.Node, "beh": string(x.Behavior), "checks": cs, "name": x.Name, "ci": x.CreateIndex})
 		case "session_checks":
 			// unexported type with exported fields
@@ -460,6 +468,46 @@ func ProjectStore(s *state.Store, idx uint64, skipNode string) M {
 	sort.Strings(coords)
 	out["kv"], out["tombs"], out["sess"], out["schk"] = kv, tombs, sess, schk
 	out["nodes"], out["svcs"], out["chks"], out["pq"], out["coords"], out["tix"] = nodes, svcs, chks, pq, coords, tix
+	// lock delay: sessions carrying one, and the keys (of the driver's key universe) inside their window right now
+	delayed := []any{}
+	for _, k := range DelayKeys(s, 0) {
+		delayed = append(delayed, keyJSON(k))
+	}
+	sort.Strings(lds)
+	out["lds"], out["delayed"] = lds, delayed
+	return out
+}
+
+// EdgeSlack is the clock uncertainty granted around the end of a lock-delay window.
+const EdgeSlack = 3 * time.Second
+
+// DelayKeys returns the keys of the driver's universe whose lock-delay window is open (slack == 0), or ends / ended
+// within slack of now (slack > 0).
+func DelayKeys(s *state.Store, slack time.Duration) []string {
+	out := []string{}
+	now := time.Now()
+	for _, k := range WideKeys {
+		exp := s.KVSLockDelay(k, nil)
+		if exp.IsZero() {
+			continue
+		}
+		left := exp.Sub(now)
+		if slack == 0 && left > 0 {
+			out = append(out, k)
+		}
+		if slack > 0 && left > -slack && left < slack {
+			out = append(out, k)
+		}
+	}
+	return out
+}
+
+// EdgeKeys is DelayKeys(EdgeSlack) in trace form.
+func EdgeKeys(s *state.Store) []any {
+	out := []any{}
+	for _, k := range DelayKeys(s, EdgeSlack) {
+		out = append(out, keyJSON(k))
+	}
 	return out
 }
 
